@@ -57,15 +57,21 @@ func VerifC12_AccessChecker() {
 	b, backend := newVfBackend()
 	p := newC12policy()
 	r := AccessChecker(backend, p.check)
-	a := vfDefaultArgs(context.Background(), "a", "b")
+	// a mount may name the same repository twice (read is checked on the source, write
+	// on the target, whatever their names)
+	to := "b"
+	if m == mMountBlob && verifBool("mountWithinOneRepository") {
+		to = "a"
+	}
+	a := vfDefaultArgs(context.Background(), "a", to)
 	res := vfInvoke(r, m, a)
 	kind := vfKind[m]
 	allowed := p.allowed("a", kind)
 	if m == mMountBlob {
-		allowed = allowed && p.allowed("b", AccessWrite)
+		allowed = allowed && p.allowed(to, AccessWrite)
 	}
 	if allowed {
-		verifAssert(vfDelegatedOK(b, m, a, "a", "b", res), "allowed-delegates-exactly")
+		verifAssert(vfDelegatedOK(b, m, a, "a", to, res), "allowed-delegates-exactly")
 		verifCover("allowed")
 	} else {
 		verifAssert(len(b.calls) == 0, "denied-no-backend-call")
@@ -90,14 +96,18 @@ func VerifC12_Select() {
 		}
 		return verifBool("allowOther")
 	})
-	a := vfDefaultArgs(context.Background(), "a", "b")
+	to := "b"
+	if m == mMountBlob && verifBool("mountWithinOneRepository") {
+		to = "a"
+	}
+	a := vfDefaultArgs(context.Background(), "a", to)
 	res := vfInvoke(r, m, a)
 	allowed := allowA
-	if m == mMountBlob {
+	if m == mMountBlob && to == "b" {
 		allowed = allowA && allowB
 	}
 	if allowed {
-		verifAssert(vfDelegatedOK(b, m, a, "a", "b", res), "allowed-delegates-exactly")
+		verifAssert(vfDelegatedOK(b, m, a, "a", to, res), "allowed-delegates-exactly")
 		verifCover("allowed")
 	} else {
 		verifAssert(len(b.calls) == 0, "denied-no-backend-call")
